@@ -577,7 +577,7 @@ def main(chk: Check) -> None:
     else:
         chk.cov["obligations"] += 1
     chk.trusted += [
-        "everything listed for C03 (translator tools/c03.py incl. the safe= strings of to_url / literal quoting / redirects, extraction, converter language predicates)",
+        "everything listed for C03 (the statement pins tools/pins/c03_*.txt cover Rule.build / _compile_builder / suitable_for / build_compare_key, the rule factories, MapAdapter.build / _partial_build, _urlencode, iter_multi_items; translator tools/c03.py incl. the safe= strings of to_url / literal quoting / redirects, extraction, converter language predicates)",
         "urllib.parse.quote / unquote and the UTF-8 codec (lib/Utf8.v) are hand-written models, validated differentially against CPython",
         "float(): Section contract (float(str(x)) = x, str(x) matches \\d+\\.\\d+ on positional floats), validated by the harness on every generated float",
         "uuid.UUID(text) / str(uuid) carried as 32 hex digits; int() on decimal digit strings modelled (Unicode \\d runs from the interpreter)",
